@@ -103,9 +103,15 @@ def case_term(c, cfgterm):
             kidx[e["idx"]] = counts[e["side"]]
             counts[e["side"]] += 1
             outs[e["side"]].append("(%d%%N, %s)" % (e["t"], dgram_term(e["recs"])))
+        elif e["ev"] == "inject":
+            moves.append("Inject %s %s %d%%N" % (cbool(e["side"] == "client"), dgram_term(e["recs"]), e["t"]))
         elif e["ev"] == "deliver":
             if e["idx"] in delivered:
-                dup_skipped += 1      # same datagram instance again: inert (replay detection, C06)
+                # the same datagram instance again.  Since commit 5206069 unprotected records do not move the
+                # replay window: the epoch-0 records of the copy are processed again, its protected record is
+                # refused as a replay once it can be read (model: Redeliver / duplicate_of)
+                dup_skipped += 1
+                moves.append("Redeliver %s %d %d%%N" % (cbool(side_of[e["idx"]] == "client"), kidx[e["idx"]], e["t"]))
                 continue
             delivered.add(e["idx"])
             moves.append("Deliver %s %d %d%%N" % (cbool(side_of[e["idx"]] == "client"), kidx[e["idx"]], e["t"]))
@@ -142,8 +148,11 @@ def timer_groups(c, side, new_only=False):
     for e in c["events"]:
         if e["ev"] == "emit":
             content[e["idx"]] = tuple((r["ct"], r["e"], r["ht"], r["ms"], r["fo"], r["fl"]) for r in e["recs"])
-        if e["ev"] == "deliver" and e["side"] == side:
-            k = content.get(e["idx"])
+        if e["ev"] in ("deliver", "inject") and e["side"] == side:
+            if e["ev"] == "inject":
+                k = tuple((r["ct"], r["e"], r["ht"], r["ms"], r["fo"], r["fl"]) for r in e["recs"])
+            else:
+                k = content.get(e["idx"])
             if not new_only or k not in seen:
                 ndel += 1
             seen.add(k)
@@ -160,12 +169,37 @@ def monitor_liveness(c):
     if not c["data_ok"]:
         return "handshake completed but application data does not flow both ways"
     start = max(c["tfault"], c.get("silence_until", 0))
-    if c["tdone"] - start > 6 * 60000 + 1000:
-        return "completion took %d ms after the last fault (bound 6 x 60 s)" % (c["tdone"] - start)
+    tdone = c.get("tcomplete", c["tdone"])
+    if tdone - start > 6 * 60000 + 1000:
+        return "completion took %d ms after the last fault (bound 6 x 60 s)" % (tdone - start)
+    return None
+
+
+REPEATED = "backoff defeated by repeated data"
+RESENT = "final flight re-sent for a datagram that is not a retransmission"
+
+
+def monitor_finished(c):
+    """after completing, an endpoint re-sends its final flight only in response to the peer's retransmission:
+    a forged fragment with a message number the peer never used (injected) must draw nothing"""
+    ev = c["events"]
+    for i, e in enumerate(ev):
+        if e["ev"] != "inject" or e["t"] <= c.get("tcomplete", c["tdone"]):
+            continue
+        for f in ev[i + 1:]:
+            if f["ev"] in ("deliver", "inject", "drop"):
+                break
+            if f["ev"] == "emit" and f["side"] == e["side"] and f["t"] == e["t"] and f["cause"] == "deliver":
+                r = e["recs"][0]
+                return "%s: the completed %s answered a forged handshake fragment (type %d, message_seq %d, never used by the peer) at %d ms with %d record(s)" % (
+                    RESENT, e["side"], r["ht"], r["ms"], e["t"], len(f["recs"]))
     return None
 
 
 def monitor_discipline(c):
+    m = monitor_finished(c)
+    if m:
+        return m
     I = c["interval_ms"]
     for e in c["events"]:
         if e["ev"] == "emit" and e["cause"] == "timer" and e["t"] > 0:
@@ -191,6 +225,9 @@ def monitor_discipline(c):
                         side, g1, g2)
                 if g2 > 60000:
                     return "%s retransmission interval %d ms above the 60 s cap" % (side, g2)
+                if g1 < 60000 and g2 != min(2 * g1, 60000):
+                    return REPEATED + ": %s retransmission gaps %d ms then %d ms (expected %d) although only data it had received before arrived in between" % (
+                        side, g1, g2, min(2 * g1, 60000))
         # NEW data restores the initial interval even when it does not complete the awaited flight:
         # after a datagram carrying a handshake message number never seen before, the timer expiry
         # that follows doubles the INITIAL interval, so the gap between the next two timer
